@@ -38,7 +38,12 @@ pub struct Container {
 pub fn open_as_container_pack(reader: Reader) -> Result<ContainerPack> {
     // Check at beginning
     // First try to check without Check as we want a nice message to the user if version has changed.
-    reader.parse_block_unchecked_at::<PackHeader>(Offset::zero())?;
+    // Any other error is not fatal here: the pack may be located at the end of the reader.
+    if let Err(e) = reader.parse_block_unchecked_at::<PackHeader>(Offset::zero()) {
+        if let ErrorKind::Version(_) = *e {
+            return Err(e);
+        }
+    }
     let (pack_header, offset) = match reader.parse_block_at::<PackHeader>(Offset::zero()) {
         Ok(pack_header) => (pack_header, Offset::zero()),
         Err(_) => {
